@@ -2,17 +2,11 @@ import DarkluaModel.Rules.Evaluator
 import DarkluaModel.Shared.FloatOps
 /-!
 The executable `EvalOps` instance over IEEE doubles: what the Rust code really computes
-(`f64::EPSILON` comparison, `f64::to_string`, `str::parse::<NumberExpression>` with Rust's
+(`f64::to_string`, `str::parse::<NumberExpression>` with Rust's
 `f64`/`i64`/`u32`/`u64` parsers). Driver code only: no theorem mentions it (the theorems
 quantify over every `NumOps` and every `EvalOps`). Tied to the Rust by the C08 correspondence.
 -/
 namespace DarkluaModel.Evaluator
-
-/-- `f64::EPSILON` = 2⁻⁵² -/
-def f64Epsilon : Float := Float.ofBits 0x3CB0000000000000
-
-/-- `(a - b).abs() < f64::EPSILON` -/
-def epsEqFloat (a b : Float) : Bool := (a - b).abs < f64Epsilon
 
 /-! ### `f64::to_string`: shortest digits that round-trip, positional notation -/
 
@@ -171,9 +165,7 @@ def secondNonUnderscore (s : List UInt8) : Option (Nat × UInt8) :=
   | _ :: (c, i) :: _ => some (i, c)
   | _ => none
 
-/-- `text.parse::<NumberExpression>().ok().map(|n| n.compute_value())`. A hexadecimal literal with
-a binary exponent whose value `integer * 2^exponent` overflows `u64` makes `compute_value` panic
-in debug builds (and wrap in release builds): answered `none` here, the harness keeps away. -/
+/-- `text.parse::<NumberExpression>().ok().map(|n| n.compute_value())`. -/
 def parseLitFloat (value : List UInt8) : Option Float :=
   let startsWithZero := value.head? == some 48
   let second := secondNonUnderscore value
@@ -186,7 +178,8 @@ def parseLitFloat (value : List UInt8) : Option Float :=
         | some index =>
           match rustParseU32 (value.drop (index + 1)), rustU64Radix 16 ((value.take index).drop (position + 1)) with
           | some ex, some n =>
-            if ex < 64 && n * 2 ^ ex < 2 ^ 64 then some (ratToFloat (n * 2 ^ ex) 1) else none
+            -- `HexNumber::compute_value`: `if integer == 0 { 0.0 } else { integer as f64 * 2_f64.powf(exponent as f64) }`
+            some (if n == 0 then 0.0 else ratToFloat n 1 * Float.pow 2.0 (Float.ofNat ex))
           | _, _ => none
         | none => (rustU64Radix 16 (filterUnderscore (value.drop (position + 1)))).map fun n => ratToFloat n 1
       else (rustU64Radix 2 (filterUnderscore (value.drop (position + 1)))).map fun n => ratToFloat n 1
@@ -206,34 +199,8 @@ where
           | _, _ => none
       | none => rustParseF64 (filterUnderscore value)
 
-/-- The literal class on which `HexNumber::compute_value` (`integer * 2_u64.pow(exponent)` in `u64`)
-overflows: a panic in builds with overflow checks, a wrapped value in release builds (known finding
-C12-F10). `parseLitFloat` answers `none` on exactly these texts. -/
-def hexExpOverflowLit (value : List UInt8) : Bool :=
-  match value.head? == some 48, secondNonUnderscore value with
-  | true, some (position, c) =>
-    if c == 120 || c == 88 then
-      match (findByte 112 value).orElse (fun _ => findByte 80 value) with
-      | some index =>
-        match rustParseU32 (value.drop (index + 1)), rustU64Radix 16 ((value.take index).drop (position + 1)) with
-        | some ex, some n => !(ex < 64 && n * 2 ^ ex < 2 ^ 64)
-        | _, _ => false
-      | none => false
-    else false
-  | _, _ => false
-
-/-- … as a string operand of `number_coercion` (after `from_utf8`, `trim`, the leading `-`) -/
-def hexExpOverflowStr (s : List UInt8) : Bool :=
-  match utf8Trim s with
-  | none => false
-  | some t =>
-    match t with
-    | 45 :: rest => hexExpOverflowLit rest
-    | _ => hexExpOverflowLit t
-
 /-- what darklua computes, over doubles -/
 def floatEvalOps : EvalOps floatOps where
-  epsEq := epsEqFloat
   fmtRust := fmtRustFloat
   parseLit := parseLitFloat
 
